@@ -75,6 +75,11 @@ def continuations(rng, pats, meta):
                 continue
             if isinstance(node, (ast.Name, ast.Constant)) or pat.count(ph) != 1:
                 continue
+            # only expressions that are READ: an assignment target such as `(a, b)` is a different tree (Store context) from the
+            # expression `(a, b)` a pattern text can express
+            where = [n for n in ast.walk(ast.parse(pat)) if isinstance(n, ast.Name) and n.id == ph]
+            if len(where) != 1 or not isinstance(where[0].ctx, ast.Load):
+                continue
             for _ in range(4):
                 try:
                     inner, iexp = caitgen.derive(rng, src + '\n', allow=('hole', 'rename'))
